@@ -331,3 +331,63 @@ def fstr(f):
     if t == "not":
         return "!%s" % fstr(f[1])
     return str(f[1]).lower()
+
+
+# ---------------------------------------------------------------- linear arithmetic
+
+class NotLinear(Exception):
+    pass
+
+
+def linear(e, env=None):
+    """(coeffs: {symbol: int}, const: int) of an integer expression built from + - * literals, casts and
+    let-bound locals (env: name -> (coeffs, const)); symbols are `term` strings"""
+    env = env or {}
+    e = strip(e)
+    if not isinstance(e, dict):
+        raise NotLinear(e)
+    k = e.get("k")
+    if k == "lit" and e.get("t") == "int":
+        return ({}, int(e["v"]))
+    if k == "cast":
+        return linear(e["a"], env)
+    if k == "block":
+        env2 = dict(env)
+        for st in e["stmts"]:
+            if st.get("k") == "slet" and st["pat"].get("k") == "pbind" and st.get("init") is not None:
+                try:
+                    env2[st["pat"]["name"]] = linear(st["init"], env2)
+                except NotLinear:
+                    env2.pop(st["pat"]["name"], None)
+            elif st.get("k") == "macro":
+                continue
+            else:
+                raise NotLinear(st)
+        if e.get("tail") is None:
+            raise NotLinear(e)
+        return linear(e["tail"], env2)
+    if k == "local" and e["name"] in env:
+        return env[e["name"]]
+    if k == "un" and e["op"] == "-":
+        c, k0 = linear(e["a"], env)
+        return ({s: -v for s, v in c.items()}, -k0)
+    if k == "bin" and e["op"] in ("+", "-"):
+        ca, ka = linear(e["a"], env)
+        cb, kb = linear(e["b"], env)
+        sg = 1 if e["op"] == "+" else -1
+        out = dict(ca)
+        for s, v in cb.items():
+            out[s] = out.get(s, 0) + sg * v
+        return ({s: v for s, v in out.items() if v != 0}, ka + sg * kb)
+    if k == "bin" and e["op"] == "*":
+        ca, ka = linear(e["a"], env)
+        cb, kb = linear(e["b"], env)
+        if not ca:
+            return ({s: v * ka for s, v in cb.items()}, ka * kb)
+        if not cb:
+            return ({s: v * kb for s, v in ca.items()}, ka * kb)
+        raise NotLinear(e)
+    t = term(e)
+    if t is None:
+        raise NotLinear(e)
+    return ({t: 1}, 0)
